@@ -769,6 +769,12 @@ long d_string_replace_text_in_range(DString * d, size_t pos, size_t len, const c
 
 		long len_o = strlen(original);
 		long len_r = strlen(replace);
+
+		if (len_o == 0) {
+			// Nothing to look for (and the loop below would never advance)
+			return 0;
+		}
+
 		long change = len_r - len_o;	// Change in length for each replacement
 
 		size_t stop;
